@@ -93,6 +93,11 @@ func (t *fnTr) gtype(T types.Type) (string, error) {
 			return "(list N)", nil
 		}
 		return "(list " + e + ")", nil
+	case *types.Map:
+		// a map with integer keys whose VALUES the function never looks at: the list of its keys
+		if _, _, ok := intBits(u.Key()); ok {
+			return "(list Z)", nil
+		}
 	case *types.Interface:
 		if types.Identical(T, types.Universe.Lookup("error").Type()) {
 			return "(option (list N))", nil
@@ -734,6 +739,12 @@ func stdLib(t *fnTr, f *types.Func, x *ast.CallExpr) (string, bool, error) {
 			return "", false, err
 		}
 		return "(trim_slash " + a + ")", true, nil
+	case "errors.New":
+		a, err := t.expr(x.Args[0])
+		if err != nil {
+			return "", false, err
+		}
+		return "(Some " + a + ")", true, nil
 	case "path.IsAbs":
 		a, err := t.expr(x.Args[0])
 		if err != nil {
@@ -891,6 +902,8 @@ func (t *fnTr) stmts(list []ast.Stmt, env fnEnv) (string, error) {
 		return t.switchStmt(x, rest, env)
 	case *ast.RangeStmt:
 		return t.rangeStmt(x, rest, env)
+	case *ast.ForStmt:
+		return t.forStmt(x, rest, env)
 	}
 	return "", t.errf(s, "statement %T is outside the translated subset", s)
 }
@@ -947,6 +960,33 @@ func (t *fnTr) assign(x *ast.AssignStmt, next func() (string, error)) (string, e
 					return "", err
 				}
 				return fmt.Sprintf("let %s := %s in\n%s", n, tmp, r), nil
+			}
+		}
+		// _, ok := m[k]
+		if len(x.Lhs) == 2 && len(x.Rhs) == 1 {
+			if ix, ok := x.Rhs[0].(*ast.IndexExpr); ok {
+				if _, ok := t.info.TypeOf(ix.X).Underlying().(*types.Map); ok {
+					if id, ok := x.Lhs[0].(*ast.Ident); !ok || id.Name != "_" {
+						return "", t.errf(x, "a map lookup whose value is used")
+					}
+					_, okn, err := t.lhsName(x.Lhs[1])
+					if err != nil {
+						return "", err
+					}
+					m, err := t.expr(ix.X)
+					if err != nil {
+						return "", err
+					}
+					k, err := t.expr(ix.Index)
+					if err != nil {
+						return "", err
+					}
+					r, err := next()
+					if err != nil {
+						return "", err
+					}
+					return fmt.Sprintf("let %s := (go_map_has %s %s) in\n%s", okn, m, k, r), nil
+				}
 			}
 		}
 		// tuple := call
@@ -1339,4 +1379,99 @@ func (t *fnTr) function(fd *ast.FuncDecl) (string, error) {
 	fmt.Fprintf(&b, "Definition %s %s : ctl %s unit :=\n%s%s.\n", name, strings.Join(params, " "), t.retT, strings.Join(init, ""), body)
 	t.funcs[obj] = name
 	return b.String(), nil
+}
+
+// for i := 0; i < K; i++ { body } with a constant K and a body that does not assign i
+func (t *fnTr) forStmt(x *ast.ForStmt, rest []ast.Stmt, env fnEnv) (string, error) {
+	bad := func() (string, error) {
+		return "", t.errf(x, "a for loop that is not `for i := 0; i < CONST; i++`")
+	}
+	init, ok := x.Init.(*ast.AssignStmt)
+	if !ok || init.Tok != token.DEFINE || len(init.Lhs) != 1 || len(init.Rhs) != 1 {
+		return bad()
+	}
+	iv, ok := init.Lhs[0].(*ast.Ident)
+	if !ok {
+		return bad()
+	}
+	io := t.info.Defs[iv]
+	if tv := t.info.Types[init.Rhs[0]]; tv.Value == nil || tv.Value.ExactString() != "0" {
+		return bad()
+	}
+	cond, ok := x.Cond.(*ast.BinaryExpr)
+	if !ok || cond.Op != token.LSS {
+		return bad()
+	}
+	if id, ok := cond.X.(*ast.Ident); !ok || t.info.Uses[id] != io {
+		return bad()
+	}
+	ktv := t.info.Types[cond.Y]
+	if ktv.Value == nil || ktv.Value.Kind() != constant.Int {
+		return bad()
+	}
+	post, ok := x.Post.(*ast.IncDecStmt)
+	if !ok || post.Tok != token.INC {
+		return bad()
+	}
+	if id, ok := post.X.(*ast.Ident); !ok || t.info.Uses[id] != io {
+		return bad()
+	}
+	for _, o := range t.assignedOuter(x.Body) {
+		if o == io {
+			return bad()
+		}
+	}
+	// the counter is declared by the loop, so assignedOuter(x.Body) may list it only if assigned (excluded above)
+	var carried []types.Object
+	for _, o := range t.assignedOuter(x.Body) {
+		carried = append(carried, o)
+	}
+	carriedT, err := t.tupleType(carried)
+	if err != nil {
+		return "", err
+	}
+	cn := t.objNames(carried)
+	free := t.readOuter(x.Body, append(append([]types.Object{}, carried...), io))
+	var params, fargs []string
+	for _, o := range free {
+		g, err := t.gtype(o.Type())
+		if err != nil {
+			return "", err
+		}
+		params = append(params, fmt.Sprintf("(%s : %s)", t.nameOf(o), g))
+		fargs = append(fargs, t.nameOf(o))
+	}
+	t.nloop++
+	name := fmt.Sprintf("%s%s_loop%d", t.prefix, t.fname, t.nloop)
+	savedPre := t.pre
+	t.pre = nil
+	body, err := t.stmts(x.Body.List, fnEnv{k: "Nxt " + tuple(cn), loopK: "Nxt " + tuple(cn)})
+	t.pre = savedPre
+	if err != nil {
+		return "", err
+	}
+	unpack := ""
+	if len(cn) > 1 {
+		unpack = fmt.Sprintf("let '(%s) := st in\n", strings.Join(cn, ", "))
+	} else if len(cn) == 1 {
+		unpack = fmt.Sprintf("let %s := st in\n", cn[0])
+	}
+	t.defs = append(t.defs, fmt.Sprintf("Definition %s %s (%s : Z) (st : %s) : ctl %s %s :=\n%s%s.\n",
+		name, strings.Join(params, " "), t.nameOf(io), carriedT, t.retT, carriedT, unpack, body))
+	after, err := t.stmts(rest, env)
+	if err != nil {
+		return "", err
+	}
+	pat := tuple(cn)
+	if len(cn) == 0 {
+		pat = "_"
+	} else if len(cn) > 1 {
+		pat = "(" + strings.Join(cn, ", ") + ")"
+	}
+	call := name
+	if len(fargs) > 0 {
+		call = "(" + name + " " + strings.Join(fargs, " ") + ")"
+	}
+	return fmt.Sprintf("match go_count_from (Z.to_nat (%s)%%Z) 0%%Z %s %s with\n| Ret r => Ret r\n| Pan => Pan\n| Nxt %s =>\n%s\nend",
+		ktv.Value.ExactString(), call, tuple(cn), pat, after), nil
 }
